@@ -84,12 +84,21 @@ def local_names(fn):
 
 
 class _Canon(ast.NodeTransformer):
+  """Local names -> v0, v1, ... in the order in which they first appear INSIDE the node being hashed, so that the
+  hash of a statement does not depend on the rest of the function."""
   def __init__(self, names):
-    self.map = {n: 'v%d' % i for i, n in enumerate(names)}
+    self.locals = set(names)
+    self.map = {}
+  def canon(self, name):
+    if name not in self.locals:
+      return name
+    if name not in self.map:
+      self.map[name] = 'v%d' % len(self.map)
+    return self.map[name]
   def visit_Name(self, node):
-    return ast.copy_location(ast.Name(id=self.map.get(node.id, node.id), ctx=node.ctx), node)
+    return ast.copy_location(ast.Name(id=self.canon(node.id), ctx=node.ctx), node)
   def visit_arg(self, node):
-    return ast.copy_location(ast.arg(arg=self.map.get(node.arg, node.arg), annotation=None), node)
+    return ast.copy_location(ast.arg(arg=self.canon(node.arg), annotation=None), node)
 
 
 def norm_hash(node, names):
@@ -430,8 +439,17 @@ class Tr(object):
       s = stmts[0]
       raise Untranslatable('%s [stmt %s: %s]' % (e, norm_hash(s, self.names), ast.unparse(s).replace('\n', ' ')[:160]))
 
+  def is_accumulator(self, s, rest):
+    """x = set() / x = [] directly followed by a loop: translated (never glue, whatever its hash looks like)."""
+    return (isinstance(s, ast.Assign) and len(s.targets) == 1 and isinstance(s.targets[0], ast.Name) and rest
+            and isinstance(rest[0], ast.For) and
+            ((isinstance(s.value, ast.Call) and dotted(s.value.func) == 'set' and not s.value.args) or
+             (isinstance(s.value, ast.List) and not s.value.elts)))
+
   def block1(self, stmts, env, mode):
     s, rest = stmts[0], stmts[1:]
+    if self.is_accumulator(s, rest):
+      return self.assign(s, rest, env, mode)
     if self.is_glue(s):
       g = self.spec['glue'][norm_hash(s, self.names)]
       if isinstance(g, tuple):                  # ('bind', python name, coq term, type): glue that (re)binds a name
@@ -540,6 +558,8 @@ class Tr(object):
         and dotted(val.func) == 'set' and not val.args and rest and isinstance(rest[0], ast.For)):
       x = s.targets[0].id
       loop = self.block([rest[0]], env, ('set', x))
+      if loop == '[]':                          # a loop of glue only: the set is bookkeeping of that glue
+        return self.block(rest[1:], env, mode)
       env2 = dict(env)
       env2[x] = (x, 'zlist')
       return '(let %s := %s in %s)' % (x, loop, self.block(rest[1:], env2, mode))
